@@ -510,6 +510,14 @@ func genCase(t *rapid.T) Case {
 		if c.Client == "raw" && rapid.IntRange(0, 2).Draw(t, "slowclient") == 0 {
 			plan.RcvBuf = 4096
 			plan.ReadDelayMs = rapid.SampledFrom([]int{5, 30, 80}).Draw(t, "readdelay")
+			if len(plan.Batches) > 0 && rapid.IntRange(0, 2).Draw(t, "bigfile") == 0 {
+				// a file larger than any socket buffer served to the slow client: the tail of the file stays
+				// queued in the connection and is sent over many writable events
+				b := plan.Batches[len(plan.Batches)-1]
+				if last := &b[len(b)-1]; !last.Close && !last.HTTP10 {
+					last.Kind, last.RespLen, last.BodyLen = "servecontent", 6<<20, 0
+				}
+			}
 		}
 		c.Conns = append(c.Conns, plan)
 	}
